@@ -18,10 +18,10 @@ import logging
 
 import numpy as np
 
-logging.getLogger("renormalizer").setLevel(logging.WARNING)
+from renormalizer.model import Model, Op
+from renormalizer.model import basis as ba
 
-from renormalizer.model import Model, Op  # noqa: E402
-from renormalizer.model import basis as ba  # noqa: E402
+logging.getLogger("renormalizer").setLevel(logging.ERROR)
 
 EPS = np.finfo(float).eps
 
@@ -30,8 +30,7 @@ EPS = np.finfo(float).eps
 def make_basis(spec):
     k = spec["kind"]
     d = spec["dof"]
-    if isinstance(d, list):
-        d = [tuple(x) if isinstance(x, list) else x for x in d]
+    d = [dofname(x) for x in d] if isinstance(d, list) else dofname(d)
     if k == "spin":
         return ba.BasisHalfSpin(d, sigmaqn=spec.get("sigmaqn"))
     if k == "sho":
@@ -56,7 +55,16 @@ def make_model(bspecs):
     return Model([make_basis(s) for s in bspecs], [])
 
 
+def dofname(x):
+    """JSON form of a DoF name -> the hashable name handed to the library.
+    ints and strings stand for themselves; {"t": [...]} stands for the tuple (...)."""
+    if isinstance(x, dict):
+        return tuple(x["t"])
+    return x
+
+
 def site_dofs(spec):
+    """JSON-form DoF names of a site"""
     d = spec["dof"]
     return list(d) if isinstance(d, list) else [d]
 
@@ -112,6 +120,11 @@ def vocab(spec, rng, allow_complex=True, rich=True):
                 out.append((["a"], [i], False))
     elif k == "dummy":
         out = []
+    # the complex flag is measured, not guessed: dtype of the basis set's own local matrix
+    # ("Y Y" is numerically real but comes back with a complex dtype, which is what matters for D12)
+    b = make_basis(spec)
+    dl = site_dofs(spec)
+    out = [(s, p, bool(np.iscomplexobj(local_matrix(b, s, [dl[q] for q in p])))) for s, p, _ in out]
     if not allow_complex:
         out = [o for o in out if not o[2]]
     return out
@@ -126,10 +139,9 @@ def default_qn(sym, qn_size):
 
 def make_op(term, qn_size=1):
     syms, dofs, (re, im) = term
-    dofs = [tuple(x) if isinstance(x, list) else x for x in dofs]
-    f = complex(re, im) if im != 0 or isinstance(im, complex) else float(re)
-    if term[2][1] is None:      # explicit "real python float" marker
-        f = float(re)
+    dofs = [dofname(x) for x in dofs]
+    # im is None  -> a real python float;  otherwise a python complex (even when im == 0.0)
+    f = float(re) if im is None else complex(re, im)
     qn = None
     if qn_size != 1:
         qn = [default_qn(s, qn_size) for s in syms]
@@ -143,7 +155,7 @@ def term_factor(term):
 
 # ------------------------------------------------------------------------------------ oracle
 def _dofkey(x):
-    return tuple(x) if isinstance(x, list) else x
+    return dofname(x)
 
 
 def site_products(bspecs, term):
@@ -159,13 +171,13 @@ def site_products(bspecs, term):
         i = where[_dofkey(d)]
         res.setdefault(i, ([], []))
         res[i][0].append(s)
-        res[i][1].append(_dofkey(d))
+        res[i][1].append(d)
     return res
 
 
 def local_matrix(basis, syms, dofs):
     """matrix of the site-level product as defined by the basis set"""
-    return np.asarray(basis.op_mat(Op(" ".join(syms), list(dofs), 1.0)))
+    return np.asarray(basis.op_mat(Op(" ".join(syms), [dofname(d) for d in dofs], 1.0)))
 
 
 def dense_reference(bspecs, terms, offset, bases=None):
@@ -184,7 +196,7 @@ def dense_reference(bspecs, terms, offset, bases=None):
         sc = abs(c)
         for i, b in enumerate(bases):
             if i in sp:
-                key = (i, tuple(sp[i][0]), tuple(sp[i][1]))
+                key = (i, tuple(sp[i][0]), repr(sp[i][1]))
                 if key not in cache:
                     cache[key] = local_matrix(b, sp[i][0], sp[i][1])
                 mi = cache[key]
@@ -219,7 +231,7 @@ def gen_basis_specs(rng, nsite, kinds=None, qn2=False, maxdim=4, dense_cap=4096)
         for _ in range(20):
             k = kinds[int(rng.integers(len(kinds)))]
             style = int(rng.integers(3))
-            name = (lambda j: i * 10 + j) if style == 0 else ((lambda j: f"d{i}_{j}") if style == 1 else (lambda j: ["t", i, j]))
+            name = (lambda j: i * 10 + j) if style == 0 else ((lambda j: f"d{i}_{j}") if style == 1 else (lambda j: {"t": ["t", i, j]}))
             if k == "spin":
                 s = dict(kind=k, dof=name(0))
                 if qn2:
@@ -275,8 +287,8 @@ def gen_factor(rng, mode, cplx):
             return float(rng.choice([-1, 1]) * 10 ** rng.uniform(-3, 3))
         return float(np.round(rng.normal(), 6))
     re = one()
-    im = one() if cplx else 0.0
-    if re == 0 and im == 0:
+    im = one() if cplx else None
+    if re == 0 and not im:
         re = 1.0
     return [re, im]
 
@@ -333,12 +345,8 @@ def gen_terms(rng, bspecs, nterms, cplx, mode="unit", rich=True, max_support=4, 
             terms.append([list(b[0]), list(b[1]), gen_factor(rng, mode, cplx)])
         elif terms and r < p_dup + p_cancel:
             b = terms[int(rng.integers(len(terms)))]
-            if rng.random() < 0.5:
-                f = [-b[2][0], -b[2][1]]                       # exact cancellation
-            else:
-                f = [-b[2][0] * 0.5, -b[2][1] * 0.5]           # partial cancellation
-                if f[0] == 0 and f[1] == 0:
-                    f = [1.0, 0.0]
+            s = -1.0 if rng.random() < 0.5 else -0.5           # exact / partial cancellation
+            f = [s * b[2][0], None if b[2][1] is None else s * b[2][1]]
             # same operator, possibly with the sites written in another order
             blocks = site_products(bspecs, b)
             sy, df = flatten(rng, {i: (list(v[0]), list(v[1])) for i, v in blocks.items()})
